@@ -1515,6 +1515,9 @@ func convertAndParseQuerystring(value interface{}, qid uint64) (*ASTNode, []*Fil
 		}
 		return boolNode, nil, nil
 	} else {
+		if currCondition == nil {
+			return nil, nil, fmt.Errorf("convertAndParseQuerystring: no condition in query string: %v", value)
+		}
 		return nil, currCondition.FilterCriteria, nil
 
 	}
